@@ -256,9 +256,23 @@ type jobOut struct {
 	Outs []caseOut `json:"outs"`
 }
 
+// sigClass maps a signature to its failure class: all kinds of "a written packet did not arrive" are one class
+// (which packet of the window is the first missing one may differ between runs of a racy failure).
+func sigClass(sig string) string {
+	p := strings.Split(sig, "/")
+	if len(p) < 3 {
+		return sig
+	}
+	kind := p[2]
+	if strings.HasPrefix(kind, "packet-missing") || strings.HasPrefix(kind, "barrier-sentinel") {
+		kind = "missing"
+	}
+	return p[0] + "/" + p[1] + "/" + kind
+}
+
 func hasSig(r Result, sig string) bool {
 	for _, f := range r.Fails {
-		if f.Sig == sig {
+		if sigClass(f.Sig) == sigClass(sig) {
 			return true
 		}
 	}
@@ -326,6 +340,12 @@ func runWithReruns(cs Case) caseOut {
 }
 
 // ---------------------------------------------------------------- driver
+
+// wall-clock budgets after which no further work package is started (the build by vcheck takes 40-60 s more)
+const (
+	budgetQuick    = 75 * time.Second
+	budgetThorough = 760 * time.Second
+)
 
 func main() {
 	if evid.IsWorker() {
@@ -417,23 +437,23 @@ func main() {
 	}
 	run := evid.New("C01", "model_checking")
 	thorough := run.Thorough()
-	// word sets of part 1: {letters, minimal length, maximal length}
-	wordSets := [][3]int{{4, 1, 4}}
-	ev1, ev2 := 3, 2
+	ev1, ev2 := 3, 2 // events per reader script: one reader / two readers
 	if thorough {
-		wordSets = [][3]int{{4, 1, 4}, {3, 5, 6}}
-		ev1, ev2 = 4, 2
+		ev1 = 4
 	}
-	var wsDesc []string
-	for _, ws := range wordSets {
-		wsDesc = append(wsDesc, fmt.Sprintf("length %d..%d over the first %d letters", ws[1], ws[2], ws[0]))
+	var wsText string
+	if thorough {
+		wsText = "all words of length 1..4 over the first 4 letters and of length 5..6 over the first 3 letters"
+	} else {
+		wsText = "all words of length 1..4 over the first 3 letters (always) and over the first 4 letters (budget permitting)"
 	}
-	run.Rule(fmt.Sprintf("REAL Server/ServerStream/Client on memnet under virtual time; the harness serialises its operations. Configurations (%d): direction {stream-to-reader: ServerStream.WritePacketRTP; relay: Client.WritePacketRTP -> record session -> sysx relay handler -> ServerStream} x transport of reader/publisher {udp, tcp, http-tunnel, ws-tunnel} (relay: same transport on both sides, plus udp->tcp and tcp->udp) x shape {1m1f: H264/96; 2m: H264/96 + Opus/97; 1m2f: one media with H264/96 + VP8/97} + {rtsps with SRTP} for tcp and udp. "+
-		"Part 1 (kind seq): per configuration EVERY packet word of %s of the alphabet [%s] (each letter set extended by the last letter, a sequence-number jump of +32768, when all transports are reliable), one always-on reader, words run in batches of one world, a delivery barrier after each word; sequence numbers consecutive from {0, 65534, 65531} per batch (reliable transports: every word restarts at 0 or 65534 = arbitrary jump). "+
-		"Part 2 (kind place): per configuration the fixed packet sequence [%s] with ALL placements (7 slots, non-decreasing) of the event scripts of one reader {%s} and of two readers {%s} x {%s} (reader 1 on the configuration's second transport), a fresh world per case, start sequence number alternating 0/65534. "+
-		"Before PAUSE and TEARDOWN the harness runs a delivery barrier for that reader (sentinel packet per (media, format), wait for its arrival); abrupt close is issued without one. A final barrier ends every case. "+
-		"state = (configuration, vector of reader states none/playing/paused/gone); transition = one write, barrier or reader event executed on the implementation; trace = one case. non-trivial case = at least one packet was received by a reader and at least one oracle clause beyond 'nothing received' applied; distinct = distinct (configuration, step list).",
-		len(configs()), strings.Join(wsDesc, " and of "), lettersString(seqAlphabet), lettersString(placeSeq), strings.Join(scripts(ev1), ","), strings.Join(scripts(ev2), ","), strings.Join(scripts(ev2), ",")))
+	run.Rule(fmt.Sprintf("REAL Server/ServerStream/Client on memnet under virtual time; the harness serialises its operations (waits for every response / delivery barrier). Configurations (%d): direction {stream-to-reader: ServerStream.WritePacketRTP; relay: Client.WritePacketRTP -> record session -> sysx relay handler -> ServerStream.WritePacketRTP} x transport of readers/publisher {udp, tcp, http-tunnel, ws-tunnel} (relay: same transport on both sides, plus udp->tcp and tcp->udp) x shape {1m1f: H264/96; 2m: H264/96 + Opus/97; 1m2f: one media with H264/96 + VP8/97}, plus rtsps+SRTP for tcp and udp. "+
+		"Part 1 (seq): per configuration %s of the alphabet [%s] (the letter set is extended by the last letter, a sequence-number jump of +32768, when every transport is reliable); one always-on reader; words run in batches of 120 in one world with a delivery barrier after each word; sequence numbers consecutive from {0, 65534, 65531} per batch (reliable transports: every word restarts at 0 or 65534, i.e. an arbitrary jump between words). "+
+		"Part 2 (place): per configuration the fixed packet sequence [%s] with ALL placements (7 slots, non-decreasing) of the event scripts of one reader {%s} (j join, p PAUSE, r re-PLAY, t TEARDOWN, c abrupt close of the connection); two readers: scripts {%s} x {%s} at all placements - always: on stream-to-reader/tcp and relay/tcp>tcp of shape 2m one reader always on and the other running every placement (both on tcp); budget permitting: the full product per configuration (reader 1 on the configuration's second transport), quick: the two tcp configurations of shape 2m, thorough: all 14 configurations of shape 2m then tcp and udp of shape 1m2f. A fresh world per case, start sequence number alternating 0/65534 (TLS: 0). "+
+		"Part 3: one case per TLS configuration with a reader joining exactly at the sequence-number wrap. Part 4 (report only): PAUSE/TEARDOWN right after the six packets without barrier. "+
+		"Before PAUSE and TEARDOWN the harness runs a delivery barrier for that reader (a sentinel packet per (media, format), wait for its arrival); abrupt close is issued without one; a final barrier ends every case. Work packages run in a fixed order while the wall-clock budget lasts (quick %v, thorough %v after start); packages not run are listed under caps_hit and make exhaustive=false. "+
+		"state = (configuration, vector of reader states none/playing/paused/gone); transition = one write, barrier or reader event executed on the implementation; trace = one world. evaluation = one packet word or one placement case; non-trivial = at least one packet reached a reader's callback; distinct = distinct (configuration, step list).",
+		len(configs()), wsText, lettersString(seqAlphabet), lettersString(placeSeq), strings.Join(scripts(ev1), ","), strings.Join(scripts(ev2), ","), strings.Join(scripts(ev2), ","), budgetQuick, budgetThorough))
 	run.Assume("oracle per reader and (media, format): every packet handed to OnPacketRTP matches a written packet (unique payload tag) of that same media and format in payload bytes, marker, timestamp, sequence number, payload type, no padding/extension/CSRC added; at most once; in writing order per (media, format). SSRC is excluded from the comparison with the written packet: ServerStream/Client.WritePacketRTP overwrite pkt.SSRC with their local SSRC (server_stream_format.go:99, client_format.go:268); instead the SSRC of every received packet must equal the ssrc= of that reader's SETUP response (announced only for medias with one format: server_session.go:1032)")
 	run.Assume("completeness is demanded on TCP-based transports only, for packets whose WritePacketRTP returned nil, written after the reader's Play() returned and before the harness issued Pause()/Close(), provided no OnStreamWriteError fired for that session. Weaker reading taken: before PAUSE/TEARDOWN the harness first waits (sentinel barrier) until the reader has received what was written; a PAUSE that overtakes packets still queued in the session's write queue discards them by design (ringbuffer.Close) - reported separately, not demanded here. Over UDP only 'in-order subsequence' is demanded; completeness on the lossless memnet is reported (udp_missing)")
 	run.Assume("TLS: with TCP media the TLS record layer is replaced by the identity through Server.TLSListen / Client.DialTLSContext so that the tap can read interleaved frames (SRTP stays on: it depends on TLSConfig/rtsps only); with UDP media the control connection is really TLS over memnet. Tunnels are not combined with TLS. memnet UDP is lossless and FIFO per socket; the client's UDP reorderer parks packets behind a gap (packets written while paused), the barrier then writes a burst of 66 sentinels to flush it")
@@ -624,6 +644,24 @@ func main() {
 			}
 		}
 	}
+	if part("place2") {
+		// two readers, always run: on the two TCP configurations of shape 2m one reader stays on from slot 0 while
+		// the other runs every script of the two-reader set at every placement, and vice versa
+		for _, cfg := range cfgs {
+			if cfg.Shape == "2m" && !cfg.Secure && cfg.Rd == tTCP && (cfg.Dir == dirStream || cfg.Pub == tTCP) {
+				lo := len(cases)
+				on := placed{"j", []int{0}}
+				both := cfg
+				both.Rd2 = tTCP // both readers on a reliable transport: completeness is demanded of both
+				for _, b := range readerPlacements(ev2) {
+					cases = append(cases, mk(both, on, b), mk(both, b, on))
+				}
+				counts["placement_cases_two_readers_core"] += len(cases) - lo
+				core.units += float64(len(cases) - lo)
+				group(core, lo, len(cases), 40)
+			}
+		}
+	}
 	if thorough {
 		addWords(core, all, [3]int{4, 1, 4})
 		addPlace1(core, all, 1, 3)
@@ -774,6 +812,7 @@ func main() {
 				agg["missing_excused_by_stream_write_error"] += int64(res.Excused)
 				agg["received_but_written_outside_play_window"] += int64(res.OldPackets)
 				agg["http_tunnel_handshake_retries"] += int64(res.TunnelRetries)
+				agg["relay_sync_timeouts"] += int64(res.RelayTimeouts)
 				agg["undrained_leave_packets_at_stake"] += int64(res.UndrainedTotal)
 				agg["undrained_leave_packets_lost_reported_not_demanded"] += int64(res.UndrainedLost)
 				if cs.Cfg.Dir == dirStream {
@@ -825,9 +864,9 @@ func main() {
 		}
 	}
 
-	budget := 75 * time.Second
+	budget := budgetQuick
 	if thorough {
-		budget = 760 * time.Second
+		budget = budgetThorough
 	}
 	perUnit := 0.0
 	var ran, skipped []string
